@@ -22,6 +22,11 @@ uint8_t* ir_memcpy(uint8_t* d, uint8_t* s, uint64_t n) { return (uint8_t*)memcpy
 uint8_t* ir_memmove(uint8_t* d, uint8_t* s, uint64_t n) { return (uint8_t*)memmove(d, s, n); }
 uint8_t* ir_memset(uint8_t* d, uint8_t c, uint64_t n) { return (uint8_t*)memset(d, c, n); }
 void ir_throw_event(int) {}
+uint32_t ir_memcmp(uint8_t* a, uint8_t* b, uint64_t n) { return (uint32_t)memcmp(a, b, n); }
+uint32_t ir_strncmp(uint8_t* a, uint8_t* b, uint64_t n) { return (uint32_t)strncmp((char*)a, (char*)b, n); }
+uint32_t ir_strcmp(uint8_t* a, uint8_t* b) { return (uint32_t)strcmp((char*)a, (char*)b); }
+uint64_t ir_strlen(uint8_t* s) { return strlen((char*)s); }
+uint8_t* ir_memchr(uint8_t* s, uint32_t c, uint64_t n) { return (uint8_t*)memchr(s, c, n); }
 }
 void* operator new(size_t n) { void* p = malloc(n ? n : 1); if (!p) throw std::bad_alloc(); ir_live_allocs++; return p; }
 void* operator new[](size_t n) { void* p = malloc(n ? n : 1); if (!p) throw std::bad_alloc(); ir_live_allocs++; return p; }
